@@ -29,11 +29,96 @@ const sentinel = 0xAA
 
 // ---------------------------------------------------------------- reference model
 
+// A regular file's content is kept sparse (size + the non-zero bytes), so that the 64-bit offset family
+// (offsets.go) can place data beyond 2^32 and extend files to 2^53 bytes without allocating them.
 type inode struct {
 	dir    bool
-	data   []byte
+	size   int64
+	nz     map[int64]byte // the non-zero bytes of the content; everything else below size reads as 0
 	kids   map[string]*inode
 	linked bool
+}
+
+func fileInode(content string) *inode {
+	n := &inode{linked: true}
+	n.writeAt(0, []byte(content))
+	return n
+}
+
+// readAt returns up to max bytes of the content from off (nil at or beyond the end).
+func (n *inode) readAt(off int64, max int) []byte {
+	if off < 0 || off >= n.size {
+		return nil
+	}
+	cnt := int64(max)
+	if n.size-off < cnt {
+		cnt = n.size - off
+	}
+	b := make([]byte, cnt)
+	for i := range b {
+		b[i] = n.nz[off+int64(i)]
+	}
+	return b
+}
+
+func (n *inode) writeAt(off int64, data []byte) {
+	if n.nz == nil {
+		n.nz = map[int64]byte{}
+	}
+	for i, c := range data {
+		if c == 0 {
+			delete(n.nz, off+int64(i))
+		} else {
+			n.nz[off+int64(i)] = c
+		}
+	}
+	if end := off + int64(len(data)); end > n.size {
+		n.size = end
+	}
+}
+
+func (n *inode) truncate(sz int64) {
+	if sz < n.size {
+		for o := range n.nz {
+			if o >= sz {
+				delete(n.nz, o)
+			}
+		}
+	}
+	n.size = sz
+}
+
+// content is the canonical rendering of a file content, for the state key and the host-tree comparison.
+func (n *inode) content() string { return sparseString(n.size, n.nz) }
+
+// sparseString: files of up to 64 bytes are written out; larger ones as size + the runs of non-zero bytes.
+func sparseString(size int64, nz map[int64]byte) string {
+	if size <= 64 {
+		b := make([]byte, size)
+		for i := range b {
+			b[i] = nz[int64(i)]
+		}
+		return fmt.Sprintf("%q", b)
+	}
+	offs := make([]int64, 0, len(nz))
+	for o := range nz {
+		offs = append(offs, o)
+	}
+	sort.Slice(offs, func(i, j int) bool { return offs[i] < offs[j] })
+	var sb strings.Builder
+	fmt.Fprintf(&sb, "sparse(size=%d", size)
+	for i := 0; i < len(offs); {
+		j := i
+		var run []byte
+		for j < len(offs) && offs[j] == offs[i]+int64(j-i) {
+			run = append(run, nz[offs[j]])
+			j++
+		}
+		fmt.Fprintf(&sb, " @%d=%q", offs[i], run)
+		i = j
+	}
+	sb.WriteString(")")
+	return sb.String()
 }
 
 type fdent struct {
@@ -61,9 +146,9 @@ type Model struct {
 // initial tree: a = "abcdef", d/ , d/x = "XY"; b does not exist. fd 3 = the pre-opened mount.
 func newModel() *Model {
 	root := &inode{dir: true, linked: true, kids: map[string]*inode{}}
-	root.kids["a"] = &inode{data: []byte("abcdef"), linked: true}
+	root.kids["a"] = fileInode("abcdef")
 	d := &inode{dir: true, linked: true, kids: map[string]*inode{}}
-	d.kids["x"] = &inode{data: []byte("XY"), linked: true}
+	d.kids["x"] = fileInode("XY")
 	root.kids["d"] = d
 	return &Model{root: root, fds: map[int32]*fdent{3: {pre: true, ino: root}}}
 }
@@ -207,7 +292,7 @@ func (m *Model) apply(o *Op) Exp {
 				return fail(eNOTDIR)
 			}
 			if md.trunc {
-				n.data = nil
+				n.truncate(0)
 			}
 		}
 		fd := m.lowestFree()
@@ -252,13 +337,12 @@ func (m *Model) apply(o *Op) Exp {
 		if o.K == "fd_pread" {
 			off = o.Off
 		}
-		var data []byte
-		if off < int64(len(e.ino.data)) {
-			data = e.ino.data[off:]
+		if off < 0 {
+			// POSIX: EINVAL. wazero hands the offset to Go's ReadAt, whose "negative offset" error has no errno
+			// (EIO): compared as "fails".
+			return fail(anyErr)
 		}
-		if len(data) > readLen0+readLen1 {
-			data = data[:readLen0+readLen1]
-		}
+		data := e.ino.readAt(off, readLen0+readLen1)
 		if o.K == "fd_read" {
 			e.off += int64(len(data))
 		}
@@ -291,13 +375,16 @@ func (m *Model) apply(o *Op) Exp {
 			if e.app {
 				return Exp{Errs: []uint32{anyErr}, OutsideIfOK: "fd_pwrite on an append-mode descriptor succeeded (POSIX: writes at the offset; Linux: appends; Go's WriteAt rejects it)"}
 			}
-			writeAt(e.ino, o.Off, []byte(o.Data))
+			if o.Off < 0 {
+				return fail(anyErr) // POSIX: EINVAL; Go's WriteAt: "negative offset" without errno (EIO)
+			}
+			e.ino.writeAt(o.Off, []byte(o.Data))
 			return okN(uint64(len(o.Data)))
 		}
 		if e.app {
-			e.off = int64(len(e.ino.data))
+			e.off = e.ino.size
 		}
-		writeAt(e.ino, e.off, []byte(o.Data))
+		e.ino.writeAt(e.off, []byte(o.Data))
 		e.off += int64(len(o.Data))
 		return okN(uint64(len(o.Data)))
 
@@ -320,9 +407,12 @@ func (m *Model) apply(o *Op) Exp {
 		case 1:
 			nw = e.off + off
 		case 2:
-			nw = int64(len(e.ino.data)) + off
+			nw = e.ino.size + off
 		default:
 			return fail(eINVAL)
+		}
+		if wh != 0 && off > 0 && nw < off {
+			return fail(anyErr) // the new offset does not fit in 63 bits (Linux: EINVAL, POSIX: EOVERFLOW)
 		}
 		if nw < 0 {
 			return fail(eINVAL)
@@ -348,12 +438,10 @@ func (m *Model) apply(o *Op) Exp {
 		if !e.wr {
 			return fail(eINVAL, eBADF) // POSIX ftruncate: EBADF or EINVAL when not open for writing
 		}
-		sz := int(o.Off)
-		if sz <= len(e.ino.data) {
-			e.ino.data = e.ino.data[:sz:sz]
-		} else {
-			e.ino.data = append(e.ino.data, make([]byte, sz-len(e.ino.data))...)
+		if o.Off < 0 {
+			return fail(eINVAL)
 		}
+		e.ino.truncate(o.Off)
 		return Exp{}
 
 	case "fd_readdir":
@@ -503,15 +591,6 @@ func isAncestor(a, n *inode) bool {
 	return false
 }
 
-func writeAt(n *inode, off int64, data []byte) {
-	end := int(off) + len(data)
-	if end > len(n.data) {
-		n.data = append(n.data, make([]byte, end-len(n.data))...)
-	}
-	// copy-on-write is not needed: every execution owns its model
-	copy(n.data[off:], data)
-}
-
 // fd_read/fd_pread use two iovecs of these lengths at these positions of a 64-byte area.
 const (
 	readLen0, readPos0 = 2, 4
@@ -562,7 +641,7 @@ func (m *Model) Key() string {
 	visit = func(n *inode, path string) {
 		label[n] = len(label)
 		if !n.dir {
-			fmt.Fprintf(&sb, "%s=F%q;", path, n.data)
+			fmt.Fprintf(&sb, "%s=F%s;", path, n.content())
 			return
 		}
 		fmt.Fprintf(&sb, "%s=D;", path)
@@ -590,7 +669,7 @@ func (m *Model) Key() string {
 			if e.ino.dir {
 				fmt.Fprintf(&sb, "orphan%d=D;", l)
 			} else {
-				fmt.Fprintf(&sb, "orphan%d=F%q;", l, e.ino.data)
+				fmt.Fprintf(&sb, "orphan%d=F%s;", l, e.ino.content())
 			}
 		}
 		switch {
@@ -616,7 +695,7 @@ func (m *Model) TreeString() string {
 				out = append(out, p+"/")
 				visit(c, p)
 			} else {
-				out = append(out, fmt.Sprintf("%s=%q", p, c.data))
+				out = append(out, fmt.Sprintf("%s=%s", p, c.content()))
 			}
 		}
 	}
